@@ -40,7 +40,7 @@ def required_cells(tier):
             'cli:exit0', 'cli:exit1', 'cli:list', 'mix:only-skipped', 'mix:last-fails', 'mix:disabled+failing',
             'printed-failed-list:empty', 'printed-failed-list:one', 'printed-failed-list:several',
             'module-import-fails', 'cmd:named-one-of-several-in-a-docstring:0',
-            'cmd:named-one-of-several-in-a-docstring:1'])
+            'cmd:named-one-of-several-in-a-docstring:1'] + ['zero-arg:' + ' '.join(r[0]) for r in ZERO_ARG_RUNS])
 
 
 def read_marks(path):
@@ -305,16 +305,83 @@ def check_module(ctx, idx, seed, cli=False):
         sys.modules.pop(modname, None)
 
 
+ZERO_ARG_MODULE = '''import os
+def _mark(x):
+    with open(os.environ['XV_MARKFILE'], 'a') as f:
+        f.write(x + '\\n')
+def zpass():
+    _mark('zp')
+def zfail():
+    _mark('zf')
+    raise ValueError('v')
+def documented():
+    """
+    >>> _mark('doc')
+    """
+'''
+# (arguments after the module path, exit status, executed ids, final summary, names in the failed list)
+ZERO_ARG_RUNS = [
+    (['zpass'], 0, ['zp'], {'passed': 1}, []),
+    (['zfail'], 1, ['zf'], {'failed': 1}, ['zfail:0']),
+    (['zpass', '--options=+SKIP'], 0, [], {'skipped': 1}, []),
+    (['zfail', '--options=+SKIP'], 0, [], {'skipped': 1}, []),
+    (['documented'], 0, ['doc'], {'passed': 1}, []),
+    (['all'], 0, ['doc'], {'passed': 1}, []),
+]
+
+
+def probe_zero_arg(ctx):
+    """naming a function without a doctest that takes no arguments runs a stand-in doctest that calls it: it is run,
+    tallied, listed among the failed and reflected in the exit status like any other doctest of the native runner"""
+    modname = 'tz_%d_%d_zz' % (ctx.seed, ctx.shard)
+    path = os.path.join(ctx.tmp, modname + '.py')
+    markfile = os.path.join(ctx.tmp, modname + '.marks')
+    with open(path, 'w') as f:
+        f.write(ZERO_ARG_MODULE)
+    try:
+        for args, exp_rc, exp_marks, exp_sl, exp_failed in ZERO_ARG_RUNS:
+            ctx.evaluation()
+            if os.path.exists(markfile):
+                os.unlink(markfile)
+            p = subprocess.run([sys.executable, '-m', 'xdoctest', path] + args, cwd=ctx.tmp, stdout=subprocess.PIPE,
+                               stderr=subprocess.STDOUT, text=True, timeout=180, env=dict(os.environ, XV_MARKFILE=markfile))
+            ctx.event('cli_runs')
+            marks = read_marks(markfile)
+            sl = parse_summary_line(p.stdout)
+            got_sl = {k: v for k, v in (sl or {}).items() if k != 'warnings'}
+            failed = printed_failed_list(p.stdout)
+            if p.returncode != exp_rc or marks != exp_marks or got_sl != exp_sl or (failed or []) != exp_failed:
+                ctx.violation('zero-arg-run', "'python -m xdoctest mod %s' on a module with zero-argument functions: exit %d, "
+                              'executed ids %r, summary %r, failed list %r; expected exit %d, ids %r, summary %r, failed list %r'
+                              '\n--- output (tail) ---\n%s' % (' '.join(args), p.returncode, marks, got_sl, failed, exp_rc,
+                                                              exp_marks, exp_sl, exp_failed, p.stdout[-800:]),
+                              {'probe': 'zero-arg', 'args': args})
+            else:
+                ctx.cell('zero-arg:' + ' '.join(args))
+                ctx.nontrivial_count(1)
+    finally:
+        for pth in (path, markfile):
+            try:
+                os.unlink(pth)
+            except OSError:
+                pass
+
+
 def run_shard(ctx):
     warnings.simplefilter('ignore')
     n = ctx.pick(480, 6000)
     ncli = ctx.pick(32, 200)
     for idx in ctx.my_indices(n):
         check_module(ctx, idx, ctx.case_seed(idx), cli=idx < ncli)
+    if ctx.shard == 5 % ctx.nshards:
+        probe_zero_arg(ctx)
 
 
 def replay(case, ctx):
     warnings.simplefilter('ignore')
+    if case.get('probe') == 'zero-arg':
+        probe_zero_arg(ctx)
+        return
     check_module(ctx, case['index'], case['case_seed'], cli=case.get('cli', False))
 
 
